@@ -83,7 +83,7 @@ def gen_expr(rng, depth):
 def exact(ast, stats):
     k = ast[0]
     if k == "stat":
-        return Fraction(stats[ast[1]])
+        return Fraction(float(stats[ast[1]]))
     if k == "num":
         return Fraction(float(ast[1]))
     if k == "par":
@@ -121,7 +121,7 @@ def flat_eval(tokens, stats):
             pos += 1
             return v
         pos += 1
-        return Fraction(stats[t]) if t in stats else Fraction(float(t))
+        return Fraction(float(stats[t])) if t in stats else Fraction(float(t))
 
     def term():
         nonlocal pos
@@ -212,6 +212,13 @@ def part_eval(ctx) -> None:
         for _ in range(ctx.pick(6000, 40000)):
             r = rng.random()
             stats = {k: rng.choice(STATS_POOL) for k in ("min", "max", "mean", "std")}
+            if rng.random() < 0.5:
+                ks = list(stats)
+                rng.shuffle(ks)
+                stats = {k: stats[k] for k in ks}  # the statistics are looked up by name, not by position
+            if rng.random() < 0.3:
+                import numpy as _np
+                stats = {k: rng.choice([_np.float64, float])(v) for k, v in stats.items()}  # (as np.nanmin etc. return them)
             if r < 0.08:
                 bad = rng.choice(["1 +", "( 1", "1 + ( 2 *", ")", "* 2", "min max", "", "1 + + ", "( )", "2 * ( 3 + 4"])
                 try:
@@ -234,7 +241,7 @@ def part_eval(ctx) -> None:
                 ctx.count("c20.history.invalid_identifiers")
                 prev = "invalid-identifier"
                 continue
-            tokens, ast = gen_expr(rng, rng.randrange(0, maxd + 1))
+            tokens, ast = gen_expr(rng, rng.randrange(0, maxd + 1) if rng.random() < 0.97 else maxd + 3)
             text = " ".join(tokens) if rng.random() < 0.8 else "".join(
                 tok if i == 0 or not (tok in "+-" and tokens[i - 1] in "+-*/(") else " " + tok for i, tok in enumerate(tokens))
             try:
@@ -340,14 +347,19 @@ def write_climatology(scratch, rng, three_d, zero_sum=False):
         field[:] = 5.0
         land[:] = False
     field = np.where(land, np.nan, field)
+    sfield = field * 2.0 + 1.0
+    sfield[: max(2, nlat // 2), : max(2, nlon // 2)] = np.nan  # the second variable has no data over this block
     if three_d:
         data = np.broadcast_to(field, (12, 2, nlat, nlon)).copy()
         data[:, 1] += 100.0
-        ds = xr.Dataset({"tvar": (("time", "depth", "lat", "lon"), data)},
+        sdata = np.broadcast_to(sfield, (12, 2, nlat, nlon)).copy()
+        ds = xr.Dataset({"tvar": (("time", "depth", "lat", "lon"), data), "svar": (("time", "depth", "lat", "lon"), sdata)},
                         coords={"time": times, "depth": [0.0, 10.0], "lat": lat, "lon": lon})
     else:
         data = np.broadcast_to(field, (12, nlat, nlon)).copy()
-        ds = xr.Dataset({"tvar": (("time", "lat", "lon"), data)}, coords={"time": times, "lat": lat, "lon": lon})
+        sdata = np.broadcast_to(sfield, (12, nlat, nlon)).copy()
+        ds = xr.Dataset({"tvar": (("time", "lat", "lon"), data), "svar": (("time", "lat", "lon"), sdata)},
+                        coords={"time": times, "lat": lat, "lon": lon})
     return ds, field, lat, lon, year
 
 
@@ -442,10 +454,18 @@ def part_creator(ctx) -> None:
             import copy as _copy
             vcfg_before = _copy.deepcopy(vcfg)
             try:
-                dsc = {"name": "synthetic", "file_path": str(path), "variables": {"temp": "tvar"}}
+                dsc = {"name": "synthetic", "file_path": str(path), "variables": {"temp": "tvar", "salt": "svar"}}
                 if three_d:
                     dsc["3d"] = "depth"
                 creator = QcConfigCreator(CreatorConfig({"datasets": [dsc]}))
+                if it % 3 == 1:
+                    # history: the same creator first serves another variable of the same dataset with a numerically equal
+                    # bounding box (that variable may have no data there and make the library widen ITS box)
+                    try:
+                        creator.create_config(QcVariableConfig({**vcfg, "variable": "salt", "bbox": list(bbox)}))
+                    except Exception:  # noqa: BLE001
+                        pass
+                    ctx.count("c20.creator_reused_for_another_variable")
                 out = creator.create_config(QcVariableConfig(vcfg))
             except Exception as e:  # noqa: BLE001
                 ctx.violation(f"C20:create_config:raised:{type(e).__name__}@{P.client_where(e)}", {**wb, "error": repr(e)[:300]})
